@@ -207,7 +207,7 @@ def check_layer(A, rep):
       for force in (False, True):
         b, g = A.graph(cls, "_flush", "root", "none", args=[Val("const", force)])
         saves = [n.id for n in live(g) if is_enter(n, "_save_to_resource")]
-        merges = [n.id for n in live(g) if is_leave(n, "_update") and recv_is_root_T(n) and len(n.stack) == 2]
+        merges = [n.id for n in live(g) if is_leave(n, "_update") and recv_is_root_T(n) and own_child(n)]
         merges_e = [n for n in live(g) if is_enter(n, "_update") and recv_is_root_T(n) and cattr_origin_any(n["args"].get("data"))]
         w = g.must_pass(g.entry, saves, merges)
         if w is None and saves and merges and merges_e:
@@ -225,7 +225,7 @@ def check_layer(A, rep):
             b, g = A.graph(cls, "_flush", "root", "none", args=[Val("const", force)])
             saves = [n.id for n in live(g) if is_enter(n, "_save_to_resource")]
             adopt = [n.id for n in live(g) if n.kind == "data_mut" and n["op"] == "rebind" and n["owner"].args[1] == "root" and cattr_origin(n["value"]) is not None and cattr_origin(n["value"]).args[1] == "_buffer"]
-            adopt += [n.id for n in live(g) if is_leave(n, "_update") and recv_is_root_T(n) and len(n.stack) == 2]
+            adopt += [n.id for n in live(g) if is_leave(n, "_update") and recv_is_root_T(n) and own_child(n)]
             w = g.must_pass(g.entry, saves, adopt)
             if w is None and saves:
                 rep.ok("C05.g", f"C05.g {func.qualname} force={force}: the buffered contents are adopted before the file is written")
@@ -238,8 +238,8 @@ def check_layer(A, rep):
     for func_cls in seen.values():
         cls = func_cls
         b, g = A.graph(cls, "_save_to_buffer", "root", "obj")
-        inits = [n for n in live(g) if is_leave(n, "_initialize_data_in_buffer") and len(n.stack) == 2]
-        hashw = [n.id for n in live(g) if n.kind == "cs_write" and n["name"] == "_buffer" and n["op"] == "setitem" and n["index"] == Val("const", "hash") and len(n.stack) == 1
+        inits = [n for n in live(g) if is_leave(n, "_initialize_data_in_buffer") and own_child(n)]
+        hashw = [n.id for n in live(g) if n.kind == "cs_write" and n["name"] == "_buffer" and n["op"] == "setitem" and n["index"] == Val("const", "hash") and own(n)
                  and any(x.kind == "call" and str(x.args[0]).endswith("json.loads") or (x.kind == "call" and "open" in str(x.args[0])) for x in n["value"].walk())]
         f = A.model.lookup(cls, "_save_to_buffer")[1].func
         okh = bool(inits) and all(g.must_pass(i.id, [g.exit], hashw) is None for i in inits)
